@@ -52,7 +52,8 @@ pub fn parse_rootdefinition_enum(
                 Ok(value) => value,
                 Err(_) => return Err(TyperError::ExpressionIsNotConstantExpression(expr.location)),
             };
-            (evaluated, expr_ir.1.0)
+            // The value is a plain number even if it was read from a constant
+            (evaluated, unmodified_id)
         } else {
             match last_value {
                 None => (
